@@ -15,7 +15,13 @@ import (
 	"time"
 )
 
-const VerifDir = "/verif"
+// VerifDir is where evidence, replays and known_findings.json live (the directory of ./check).
+var VerifDir = func() string {
+	if d := os.Getenv("VERIF_DIR"); d != "" {
+		return d
+	}
+	return "/verif"
+}()
 
 // Violation is one oracle failure with the witness that reproduces it.
 type Violation struct {
